@@ -44,7 +44,8 @@ type Cfg struct {
 	// timer queue). A node is ejected and scheduled for recycling under a rule with a short recycle interval; the
 	// rule is replaced by the same rule with a long one (or cleared and loaded again). If the node is still ejected
 	// after the load, it is still ejected when the interval of the REPLACED rule has passed.
-	// [interval before s, interval after s, a request between the load and the old deadline (0/1), how: 0 LoadRules, 1 LoadRuleOfResource, 2 ClearRules+LoadRules]
+	// [interval before s, interval after s, a request between the load and the old deadline (0/1), how: 0 LoadRules, 1 LoadRuleOfResource, 2 ClearRules+LoadRules,
+	// 3 ClearRules, then the very same rule object is loaded again and the node fails again shortly before the old timer is due, 4 the same with ClearRuleOfResource, then LoadRules]
 	Recycle []int64 `json:"recycle,omitempty"`
 }
 
@@ -98,7 +99,7 @@ func (P) Gen(rng *sim.Rng, tier string) *harness.Case {
 		cfg.Verdicts = []int64{int64(rng.Range(1, int(d)-1)), d + int64(rng.Range(0, 500)), int64(rng.Range(2, 10)), d, int64(rng.Intn(2))}
 	}
 	if len(cfg.Budget) == 0 && len(cfg.Verdicts) == 0 && rng.Chance(0.02) {
-		cfg.Recycle = []int64{int64(rng.Range(1, 5)), int64([]int{30, 600, 3600}[rng.Intn(3)]), int64(rng.Intn(2)), int64(rng.Intn(3))}
+		cfg.Recycle = []int64{int64(rng.Range(1, 5)), int64([]int{30, 600, 3600}[rng.Intn(3)]), int64(rng.Intn(2)), int64(rng.Intn(5))}
 	}
 	n := rng.Range(6, 24)
 	for i := 0; i < n; i++ {
@@ -1068,7 +1069,7 @@ func execVerdicts(cfg *Cfg, o *harness.Outcome, env *harness.Env) {
 // execRecycle: see Cfg.Recycle.
 func execRecycle(cfg *Cfg, o *harness.Outcome, env *harness.Env) {
 	a, b, between, how := cfg.Recycle[0], cfg.Recycle[1], cfg.Recycle[2] == 1, cfg.Recycle[3]
-	if a <= 0 || a > 10 || b <= a+1 || b > 100000 || how < 0 || how > 2 {
+	if a <= 0 || a > 10 || b <= a+1 || b > 100000 || how < 0 || how > 4 {
 		return
 	}
 	const resName, bad, good = "res-0", "10.0.0.1:80", "10.0.0.2:80"
@@ -1131,7 +1132,8 @@ func execRecycle(cfg *Cfg, o *harness.Outcome, env *harness.Env) {
 		harness.Call(o, "C13.load-panicked", 0, drain)
 		_ = outlier.ClearRules()
 	}()
-	load(a, 0)
+	v1 := mk(a)
+	harness.Call(o, "C13.load-panicked", 0, func() { _, _ = outlier.LoadRules([]*outlier.Rule{v1}) })
 	request(good, false)
 	request(bad, true)
 	request(bad, true)
@@ -1140,6 +1142,42 @@ func execRecycle(cfg *Cfg, o *harness.Outcome, env *harness.Env) {
 		return
 	}
 	t0 := env.Clock.NowMs()
+	if how >= 3 {
+		// the rule is cleared and the very same object loaded again; 300 ms before the timer armed under the cleared
+		// rule is due the node fails again and is ejected and scheduled under the rule in force: it stays ejected
+		// for that rule's recycle interval, not for 300 ms
+		harness.Call(o, "C13.load-panicked", 0, func() {
+			if how == 4 {
+				_ = outlier.ClearRuleOfResource(resName)
+				_, _ = outlier.LoadRules([]*outlier.Rule{v1})
+				return
+			}
+			_ = outlier.ClearRules()
+			_, _ = outlier.LoadRules([]*outlier.Rule{v1})
+		})
+		if o.Failed() {
+			return
+		}
+		harness.Call(o, "C13.probe-panicked", 0, func() { tq.AdvanceMs(uint64(a)*1000-300-(env.Clock.NowMs()-t0), drain) })
+		request(bad, true)
+		request(bad, true)
+		if f := request(good, false); o.Failed() || !has(f, bad) {
+			return
+		}
+		t1 := env.Clock.NowMs()
+		harness.Call(o, "C13.probe-panicked", 0, func() { tq.AdvanceMs(500, drain) })
+		f := request(good, false)
+		if o.Failed() {
+			return
+		}
+		o.Nontrivial = true
+		o.Probe("outlier_rule_cleared_and_loaded_again_with_a_recycle_timer_armed")
+		if !has(f, bad) {
+			o.Fail("C13.replaced-rule-still-decides", 0, "outlier rule (ejected for 1 h after one error, RecycleIntervalS %d): node %s was ejected and scheduled for recycling, the rules were cleared and the same rule loaded again; the node failed again and was ejected under the rule in force at +%d ms - %d ms later it is back in the pool: the recycle timer armed before the rules were cleared removed it",
+				a, bad, t1-t0, env.Clock.NowMs()-t1)
+		}
+		return
+	}
 	load(b, how)
 	if o.Failed() {
 		return
